@@ -194,15 +194,16 @@ def check_method(C, cls_label, cname, name, m, inst, md, viols, nested_cls):
     # (5b) real behaviour: explicit FALSY conforming values given to the constructor arrive as given
     if name == "__init__":
         cls = type(inst)
+        advertised = set(inspect.signature(cls.__init__).parameters)
         for attr, a in md.attrs.items():
-            if not a.init or attr == md.init_overflow_attr:
-                continue
+            if attr == md.init_overflow_attr or (not a.init and attr not in advertised):
+                continue  # (an init=False attribute that the signature nevertheless advertises - e.g. the key - is judged)
             for fv in (0, "", [], {}, set(), None, False):
                 from spec_classes.utils.type_checking import check_type as _ct
 
                 if not _ct(fv, a.type) or (a.is_collection and not isinstance(fv, (list, dict, set))):
                     continue
-                kw = {md.key: vars(inst)[md.key]} if md.key and md.key in vars(inst) and md.key != attr else {}
+                kw = {md.key: vars(inst)[md.key]} if md.key and md.key in vars(inst) and md.key != attr and md.key in advertised else {}
                 try:
                     o = cls(**dict(kw, **{attr: fv}))
                 except Exception:
@@ -270,7 +271,7 @@ def worker(task):
         kw = {}
         if o.get("key"):
             kk = next(a for a in rec["attrs"] if G.attr_name(a) == o["key"])
-            kw = {o["key"]: env.mk(G.KINDS[kk["kind"]]["conf"][-1])}
+            kw = {o["key"]: env.mk(G.KINDS[kk["kind"]]["conf"][-1])} if kk.get("default") != "attr_noinit" else {}
         classes = [(rec["name"], env.cls, kw)]
         label = rec["name"] if rec["name"].startswith("Comp") else "single:" + "+".join(a["kind"] for a in rec["attrs"])
     for cname, cls, kw in classes:
@@ -412,6 +413,7 @@ def dispatch(task):
 def main(run):
     quick = run.tier == "quick"
     recs = G.quick_family() if quick else G.full_family()
+    recs = recs + [G.single("str", "attr_noinit", key="s"), G.composite("CompKeyNoInit", [("str", "attr_noinit"), ("int", "lit")], key="s")]
     tasks = [{"rec": r} for r in recs] + [{"host": True}]
     names = sorted(EFFECT_OPS)
     orders = [o for r in ((1, 2) if quick else (1, 2, 3)) for o in itertools.permutations(names, r)]
